@@ -118,3 +118,61 @@ def x_classes(rng, xgrid, n=1, lo_frac=0.0):
         else:
             out.append((float(pick(rng, [0.9, 0.97, 0.999])), c))
     return out
+
+
+def rand_grid(rng, small=True):
+    n = (int(rng.integers(4, 9)), int(rng.integers(3, 7))) if small else (int(rng.integers(8, 20)), int(rng.integers(5, 12)))
+    kind = pick(rng, ["mixed", "mixed", "log", "lin"])
+    xg = grid(*n, x_min=logu(rng, 1e-5, 3e-3) if kind != "lin" else logu(rng, 1e-3, 2e-2), kind=kind)
+    deg = int(rng.integers(1, min(5, len(xg) - 1) + 1))
+    is_log = bool(rng.random() < 0.75)
+    return dict(xgrid=xg, deg=deg, is_log=is_log)
+
+
+def rand_points(rng, xgrid, n=2, q2lo=2.0, q2hi=1e4, xmax=0.95):
+    """Kinematic points (x, Q2, cls) strictly inside the grid."""
+    g = [x for x in xgrid]
+    pts = []
+    for _ in range(n):
+        c = pick(rng, ["node", "between", "between", "node+eps", "lowest", "high"])
+        hi = max(i for i, x in enumerate(g) if x <= xmax)
+        if c == "node":
+            x = g[int(rng.integers(1, hi + 1))]
+        elif c == "between":
+            i = int(rng.integers(0, hi))
+            f = rng.uniform(0.1, 0.9)
+            x = float(g[i] * (1 - f) + g[i + 1] * f)
+        elif c == "node+eps":
+            x = float(g[int(rng.integers(0, hi))] * (1 + 1e-9))
+        elif c == "lowest":
+            x = g[0]
+        else:
+            x = float(min(xmax, pick(rng, [0.7, 0.85, 0.93])))
+        pts.append(dict(x=float(x), Q2=logu(rng, q2lo, q2hi), cls=c))
+    return pts
+
+
+def rand_config(rng, process=None, ptos=(0, 1, 2, 3), schemes=None, kinds=None, sv=False, ew=True, masses=True):
+    """A random but supported configuration cell: returns dict(theory=.., obs=.., kinds=[...]) (overrides only)."""
+    process, proj = process_projectile(rng, process)
+    scheme = pick(rng, schemes or SCHEMES)
+    nfff = int(rng.integers(3, 7)) if scheme in ("FFNS", "FFN0") else int(rng.integers(3, 6))
+    pto = int(pick(rng, list(ptos)))
+    th = dict(PTO=pto, FNS=scheme, NfFF=nfff)
+    if ew:
+        th.update(rand_ew(rng))
+        th["CKM"] = rand_ckm(rng) if rng.random() < 0.7 else CKM_PDG
+    if masses:
+        th.update(mc=float(rng.uniform(1.2, 1.8)), mb=float(rng.uniform(4.0, 5.2)), mt=float(rng.uniform(150.0, 180.0)))
+    if sv:
+        th.update(RenScaleVar=bool(rng.random() < 0.5), FactScaleVar=bool(rng.random() < 0.5))
+    ob = dict(prDIS=process, ProjectileDIS=proj)
+    if process != "CC" and rng.random() < 0.6:
+        ob["PolarizationDIS"] = float(rng.uniform(-1, 1))
+    if rng.random() < 0.4:
+        ob["PropagatorCorrection"] = float(rng.uniform(0, 0.4))
+    if kinds is None:
+        kinds = ["F2", "FL", "F3"] if process == "CC" else ["F2", "FL", "F3", "g1", "gL", "g4"]
+        if pto == 3:
+            kinds = [k for k in kinds if k != "g1"]  # no polarised N3LO coefficient functions (C16 judges the error)
+    return dict(theory=th, obs=ob, kinds=list(kinds))
